@@ -17,6 +17,8 @@ CONSTANTS
   LockNames <- MC_LockNames
   CallerIds <- MC_CallerIds
   Files <- MC_Files
+  AliasGroups <- MC_AliasGroups
+  WithAlias = FALSE
   WithEdits = FALSE
   WithReload = FALSE
   Lookups = FALSE
